@@ -72,6 +72,8 @@ class Ctx:
             return False
         key = cond.id
         if key in self.cache:
+            if self.cache[key] is None:
+                raise Inconclusive("branch decision undecided (cached)")
             return self.cache[key]
         base = self.pre + self.pc
         self.decision_queries += 1
@@ -88,6 +90,7 @@ class Ctx:
             self.cache[key] = False
             return False
         if rneg['verdict'] == 'unknown' or rpos['verdict'] == 'unknown':
+            self.cache[key] = None
             raise Inconclusive(f"branch decision undecided ({rpos['verdict']}/{rneg['verdict']})")
         # both feasible
         if not self.fork:
@@ -271,6 +274,16 @@ class SymReal:
 
     def conjugate(self):
         return self
+
+    # transcendental functions: uninterpreted atoms (harnesses that need their algebra add axioms)
+    def arccos(self):
+        return SymReal(tm.fn('arccos', [self.t]))
+
+    def sin(self):
+        return SymReal(tm.fn('sin', [self.t]))
+
+    def cos(self):
+        return SymReal(tm.fn('cos', [self.t]))
 
     @property
     def real(self):
